@@ -55,6 +55,11 @@ def cases(rng, tier, shard, nshards, phase):
                 yield c
                 continue
         if rng.random() < 0.05:
+            c = first_position_tie_case(rng)
+            if c is not None:
+                yield c
+                continue
+        if rng.random() < 0.05:
             c = c01.double_residual_tie_case(rng) if rng.random() < 0.6 else c01.partial_tiebreak_case(rng)
             if c is not None:
                 yield c
@@ -95,6 +100,27 @@ def float_collapse_case(rng):
     rng.shuffle(bs)
     return {"rule": rng.choice(["Plurality", "SNTV"]), "cfg": {"m": 1, "tiebreak": "borda"},
             "spec": {"names": names, "b": bs, "c": list(range(n))}, "rs": rng.randint(0, 10 ** 9), "huge": True}
+
+
+def first_position_tie_case(rng):
+    """Borda with tiebreak='first_place' on a profile whose ballots tie candidates in FIRST position: a tie on the Borda
+    score across the seat boundary between candidates one of whom stands in such a tied first position - the first-place
+    score splits that ballot's vote among the tied candidates, it does not give each of them the whole vote"""
+    for _ in range(400):
+        spec = gen.gen_ranked_spec(rng, nmin=3, nmax=5, ties=True, partial=rng.random() < 0.5,
+                                   weights=rng.choice(["unit", "int"]), bmin=3, bmax=7)
+        n = len(spec["c"])
+        tied_first = {c for b in spec["b"] if len(b["r"][0]) > 1 for c in b["r"][0]}
+        if not tied_first:
+            continue
+        borda = ref_scores(spec, list(range(n, 0, -1)))
+        vals = sorted(borda.values(), reverse=True)
+        ms = [m for m in range(1, n) if vals[m - 1] == vals[m]
+              and any(c in tied_first for c in spec["c"] if borda[c] == vals[m])]
+        if ms:
+            return {"rule": "Borda", "cfg": {"m": rng.choice(ms), "tiebreak": "first_place"}, "spec": spec,
+                    "rs": rng.randint(0, 10 ** 9), "first_position_tie": True}
+    return None
 
 
 def later_top_tie_case(rng):
@@ -150,6 +176,8 @@ def run_case(vk, case):
     tags = [f"rule:{rule}", f"tiebreak:{cfg.get('tiebreak')}", f"status:{res['status']}"]
     if case.get("huge"):
         tags.append("weights:float-collapsing")
+    if case.get("first_position_tie"):
+        tags.append("engineered:first-place-tiebreak-with-tied-first-positions")
     if case.get("later_tie"):
         tags.append("engineered:top-tie-after-transfer")
     monitors = []
